@@ -299,14 +299,33 @@ type c15Top8 struct {
 	c15Deep2
 }
 
+// a field named like an embedded sibling's type: the embedded struct gives its fields, not a member of that name
+type C15SL struct{ A int }
+type c15SR struct {
+	C15SL int
+	B     int
+}
+type c15Top9 struct {
+	C15SL
+	c15SR
+}
+type c15Top10 struct {
+	*C15SL
+	c15SR
+	X int
+}
+
 func c15Embedded(o *Out) {
 	mk := []func() interface{}{
+		func() interface{} { return &c15Top9{} }, func() interface{} { return &c15Top10{C15SL: &C15SL{}} },
+	}
+	mk = append(mk, []func() interface{}{
 		func() interface{} { return &c15Top5{} }, func() interface{} { return &c15Top6{} },
 		func() interface{} { return &c15Top7{} }, func() interface{} { return &c15Top8{} },
 		func() interface{} { return &c15Top1{} }, func() interface{} { return &c15Top2{} },
 		func() interface{} { return &c15Top3{} }, func() interface{} { return &c15Top4{} },
-	}
-	keys := []string{"A", "a", "B", "b", "C", "c", "D", "d", "X", "x", "e", "E", "Skip", "-", "hidden", "c15E1", "F", "ID", "id", "Extra", "M", "Z"}
+	}...)
+	keys := []string{"C15SL", "A", "a", "B", "b", "C", "c", "D", "d", "X", "x", "e", "E", "Skip", "-", "hidden", "c15E1", "F", "ID", "id", "Extra", "M", "Z"}
 	for ti, m := range mk {
 		for _, k := range keys {
 			for _, doc := range []string{`{"` + k + `":7}`, `{"` + k + `":7,"` + strings.ToLower(k) + `":8}`, `{"` + strings.ToUpper(k) + `":8,"` + k + `":7}`} {
@@ -317,7 +336,7 @@ func c15Embedded(o *Out) {
 				ws, _ := stdjson.Marshal(w)
 				o.count("embedded_cases", 1)
 				if (gerr != nil) != (werr != nil) || (gerr == nil && !bytes.Equal(gs, ws)) {
-					if ti == 0 || ti == 1 || ti == 3 {
+					if ti == 2 || ti == 3 || ti == 5 {
 						// a name present at two embedding depths: the case-insensitive
 						// match of a key that is not an exact name goes astray
 						exact := map[string]bool{"ID": true, "Extra": true, "M": true, "Z": true}
